@@ -212,7 +212,8 @@ CHECKS = {
         'density-matrix evolution sum_k K rho K^dagger; the two are cross-checked on every case) is compared with DensityMatrixSimulator final '
         'states (validity: Hermitian, unit trace, positive), with the exact recombination of *all* state-vector trajectories enumerated '
         'through a symbolic uniform draw, with conversions Kraus / mixture / superoperator / Choi and back, and with noise-model simulation '
-        'against simulating circuit.with_noise(model).',
+        'against simulating circuit.with_noise(model); run() with a noise model (one- and several-qubit measurements in any moment, terminal fast path or not, noise before or after) against the exact '
+        'record distribution of the circuit the noise model produces (C02 reference semantics).',
         'Trusted: Lean kernel; harness + scripted PRNG + driver (T2 on generated circuits; tolerance 1e-6); Kraus operators come from cirq.kraus '
         '(C03); thermal / device-derived noise parameters are not modelled; KNOWN FINDING noise:prefix-split (see known_findings.json).',
         'Lean 4 proof (selection loop, reshuffle) + exact trajectory enumeration and density-matrix correspondence',
@@ -301,6 +302,10 @@ CHECKS = {
         'of public mutating calls (constructor, append, insert, insert_into_range, batch_*, clear, item assignment/deletion, *=) '
         'keeps the circuit well-formed (C05_history_wf, induction over the history); earliest_available_moment is exactly the '
         'documented backward scan (C05_earliest_available_spec); grouping into moment-compatible batches flattens to its input. '
+        'concat_ragged (Model/C05Concat, Props/C05Concat), for all circuits and alignments: every operation is kept exactly once (C05_concat2_conserves, C05_concatRagged_conserves), the result has '
+        'max(n1, n2, n1+n2-overlap) moments (C05_concat2_length), on every shared wire - qubit, measurement or control key - the first circuit stays strictly before the second (C05_concat2_order), '
+        'no moment gets two operations on a qubit (C05_concat2_wf, C05_concatRagged_wf) and the overlap is maximal (C05_concat2_maximal); the concat stream compares the exact moment layout of '
+        'Circuit / FrozenCircuit.concat_ragged (static, bound, mixed arguments, every spelling of align) with the model. '
         'The model mirrors Circuit.insert & co. and is tied to cirq.Circuit by history-driven differential correspondence; the '
         'ordering clauses of the property (existing / inserted / after-prefix / before-suffix with the stated EARLIEST exception) '
         'and the cached summaries are evaluated on the implementation\'s own circuits after every call by a Lean specification '
